@@ -89,6 +89,7 @@ def check(ctx):
     check_signs(ctx, ANCHOR_MODULES)
     check_cursor_use(ctx, ANCHOR_MODULES, floor=3)
     check_tiles(ctx, ANCHOR_MODULES, floor=2)
+    check_scatter(ctx)
     from .C13 import check_index_spaces
     check_index_spaces(ctx)
 
@@ -253,3 +254,17 @@ def check_tiles(ctx, modules, floor=1, rule='R-TILE/window'):
             n += check_tiling(ctx, fi, rule)
     if n < floor:
         raise AnalysisError(f'only {n} chunked loops found in {modules}')
+
+
+def check_scatter(ctx, rule='R-IDIOM/pointer-scatter'):
+    """no reader of the sparse encodings uses pointer values as scatter
+    positions (sa/rules/scatter.py)"""
+    from ..rules.scatter import check_pointer_scatter
+    n = 0
+    for fi in ctx.db.iter_functions():
+        if fi.module.short in ('utils.sparse_utils', 'utils.csc_to_csr',
+                               'anndata_iterator.anndata_iterator'):
+            n += check_pointer_scatter(ctx, fi, rule)
+    ctx.ok(rule, 'sparse-readers', 'package',
+           f'{n} array-indexed stores in the sparse readers examined: none '
+           'uses pointer values as positions', nontrivial=n > 0)
